@@ -64,7 +64,8 @@ func c19CancelGen(t *rapid.T) c19CancelCase {
 			Old:   rapid.IntRange(0, 3).Draw(t, "old") == 0,
 		})
 	}
-	c.CancelAfter = rapid.IntRange(1, ns).Draw(t, "cancelAfter")
+	// 0 = the context has already ended when FetchKeys is entered
+	c.CancelAfter = rapid.IntRange(0, ns).Draw(t, "cancelAfter")
 	return c
 }
 
@@ -99,6 +100,9 @@ func c19CancelRun(out *c19Out, raw []byte) {
 	}
 	done := make(chan ret, 1)
 	var mu sync.Mutex // orders the harness's reads of the returned map after the call (not the workers' writes)
+	if c.CancelAfter == 0 {
+		cancel()
+	}
 	go func() {
 		res, err := fetcher.FetchKeys(ctx, requests)
 		mu.Lock()
@@ -115,6 +119,20 @@ func c19CancelRun(out *c19Out, raw []byte) {
 	if client.blocked.Load() < wantBlocked {
 		out.Unjudged("keys-cancel/requests-did-not-start")
 		close(client.release)
+		return
+	}
+	if c.CancelAfter == 0 {
+		// nothing has to be in flight: the call may return at once or ask the servers anyway, but it
+		// has to RETURN once whatever it started has been answered
+		out.Class("keys-cancel/context-ended-before-the-call")
+		time.Sleep(50 * time.Millisecond)
+		close(client.release)
+		select {
+		case <-done:
+			out.NonTrivial()
+		case <-time.After(8 * time.Second):
+			out.Fail("C19/keys-cancel/fetch-never-returned", "FetchKeys, entered with a context that had already ended, did not return within 8 s although every key request it made was answered")
+		}
 		return
 	}
 	out.Class(fmt.Sprintf("keys-cancel/in-flight=%d-of-%d", wantBlocked, len(c.Servers)))
